@@ -3,7 +3,7 @@
 From Coq Require Import List NArith ZArith Bool.
 From Coq Require Import String.
 Import ListNotations.
-From GP Require Import Generated Model.Handshake Model.Stderr Model.Env Model.MuxBroker Model.GrpcMux Model.Serve Model.Kill Model.Tls Model.Resources Model.Crash.
+From GP Require Import Generated Model.Handshake Model.Stderr Model.Env Model.MuxBroker Model.GrpcMux Model.Serve Model.Kill Model.Tls Model.Resources Model.Crash Model.StartFail Model.LaunchOpts.
 
 Definition gen_hs_params : hs_params :=
   {| hp_core := core_protocol_version;
@@ -68,7 +68,8 @@ Definition gen_tls_params : Tls.tparams :=
      Tls.tp_plugin_requires_client := tls_plugin_requires_client;
      Tls.tp_plugin_pins_client_cas := tls_plugin_pins_client_cas;
      Tls.tp_broker_serves_with_tls := tls_broker_serves_with_tls;
-     Tls.tp_pools_only_pinned := tls_pools_only_pinned |}.
+     Tls.tp_pools_only_pinned := tls_pools_only_pinned;
+     Tls.tp_standard_verification := tls_standard_verification |}.
 
 Definition gen_res_params : Resources.rparams :=
   {| Resources.rp_serve_defers_close := res_serve_defers_listener_close;
@@ -92,3 +93,15 @@ Definition gen_crash_params : Crash.cparams :=
      Crash.cp_mux_accept_timer := first_timer mux_accept_timers;
      Crash.cp_grpc_dial_timer := first_timer grpc_dial_timers;
      Crash.cp_grpc_knock_timer := first_timer grpc_knock_timers |}.
+
+Definition gen_sf_params : sf_params :=
+  {| sf_records_first := start_records_runner_before_start;
+     sf_kill_forces := kill_force_kills && kill_returns_without_runner_or_id;
+     sf_kill_removes_dir := kill_defers_dir_removal;
+     sf_kill_forgets := kill_forgets_runner |}.
+
+Definition gen_lo_params : lo_params :=
+  {| lo_counted := launch_options_counted;
+     lo_exactly_one := launch_requires_exactly_one;
+     lo_secure_reattach := launch_rejects_secure_reattach;
+     lo_mux_reattach := launch_rejects_mux_reattach |}.
